@@ -112,8 +112,9 @@ def run(chk, scratch):
         if (len(g) + len(t) + seed) % 3 == 0:
             # the output folder already holds the results of an earlier run on other reads (same prefix): the run below uses --force
             r0 = pipeline.run(d, out, threads=1, bam=[os.path.join(d, "half.bam")], home=os.path.join(d, "home_%s_%s_%s" % (g, t, n)))
+        # grouped tables (by the RG tag) are written as well: each of them follows the strategy of ITS level and sums to the ungrouped table
         r = pipeline.run(d, out, threads=1 + (len(g) + len(t)) % 2, extra=["--gene_quantification", g, "--transcript_quantification", t,
-                                                   "--normalization_method", n], home=os.path.join(d, "home_%s_%s_%s" % (g, t, n)),
+                                                   "--normalization_method", n, "--read_group", "tag:RG"], home=os.path.join(d, "home_%s_%s_%s" % (g, t, n)),
                          mon=["counter"], events=ev)
         return job, out, ev, r
     cells = 0
@@ -189,6 +190,14 @@ def run(chk, scratch):
                           exp_rec[x] += wgt_rec
                           types_of[x].add(atype)
               table = o.counts(fname)
+              gp = o.path(fname.replace("_counts", "_grouped_counts"))
+              if parse.exists(gp):
+                  hdr, matrix = parse.read_matrix(gp)
+                  chk.count("grouped_rows_summed", len(matrix))
+                  for feat, row in matrix.items():
+                      if feat in table and abs(sum(row) - table[feat]) > 0.005 * (len(row) + 1) + 1e-9:
+                          chk.violation("grouped-table-does-not-sum-to-ungrouped:%s" % level, "%s: %s: groups %s sum to %.2f, %s has %.2f" %
+                                        (desc, feat, hdr, sum(row), fname, table[feat]), wit)
               for f_ in (fname, fname.replace("counts", "tpm")):
                   dup = parse.duplicate_rows(o.path(f_))
                   if dup:
